@@ -45,7 +45,7 @@ type c07Case struct {
 type c07Move struct {
 	Src  int // Byzantine member index
 	Type int // 1 membership, 2 query, 3 response
-	View int // 0 copy of the latest view announced by honest member X, 1 {self, X}, 2 all honest participants + self, 3 X's latest view + self, 4 subset of the universe given by Mask
+	View int // 5 burst: universe+2 responses with pairwise different views; 0 copy of the latest view announced by honest member X, 1 {self, X}, 2 all honest participants + self, 3 X's latest view + self, 4 subset of the universe given by Mask
 	X    int
 	Mask int
 	Dest int // honest member index
@@ -125,7 +125,7 @@ func genC07(byzantine bool) func(t *rapid.T) c07Case {
 				c.Script = append(c.Script, c07Move{
 					Src:  rapid.IntRange(0, nb-1).Draw(t, "ssrc"),
 					Type: rapid.SampledFrom([]int{1, 1, 2, 3, 3}).Draw(t, "stype"),
-					View: rapid.IntRange(0, 4).Draw(t, "sview"),
+					View: rapid.IntRange(0, 5).Draw(t, "sview"),
 					X:    rapid.IntRange(0, nh-1).Draw(t, "sx"),
 					Mask: rapid.IntRange(0, 255).Draw(t, "smask"),
 					Dest: rapid.IntRange(0, nh-1).Draw(t, "sdest"),
@@ -415,6 +415,15 @@ func runC07(c c07Case) *vh.Outcome {
 								view = append(view, id)
 							}
 						}
+					}
+					if mv.View == 5 {
+						info.LiesApplied++
+						for k := 0; k < len(uni)+2; k++ {
+							v := append([]uint16(nil), uni[:1+k%len(uni)]...)
+							v = append(v, uint16(40000+k))
+							net.Inject(&sim.Frame{From: src, To: dest, MsgType: 1, Data: encodeView(byte(mv.Type), tagsOf[src][0], v)})
+						}
+						return
 					}
 					sort.Slice(view, func(i, j int) bool { return view[i] < view[j] })
 					info.LiesApplied++
